@@ -7,6 +7,7 @@ package query
 //verif:harness VerifC12ParallelJoin mode=bv tier=quick split=4
 //verif:setup VerifC12DMLSetup
 //verif:harness VerifC12ParallelDML mode=bv tier=quick split=6
+//verif:harness VerifC12AnalyticOrder mode=bv tier=quick split=4
 
 import (
 	"github.com/mithrandie/csvq/lib/parser"
@@ -22,9 +23,6 @@ var verifC12Src = []string{
 	"select id, k + @x from t",
 	"select k from t union select k from t",
 	"select id from t where exists (select 1 from t as z where z.k = t.k and z.id < t.id)",
-	// three analytic functions with different orders: each re-sorts the rows, so the order in which
-	// csvq evaluates them decides the order of the result
-	"select id, rank() over (order by id), sum(id) over (order by id desc), first_value(id) over (order by k, id) from t",
 }
 var verifC12Queries []parser.SelectQuery
 var verifC12Join parser.SelectQuery
@@ -216,6 +214,52 @@ func VerifC12ParallelDML() {
 		verifAssert("same row width", len(want[r]) == len(got[r]))
 		for c := 0; c < len(want[r]) && c < len(got[r]); c++ {
 			verifAssert("same value at the same position for one and for several workers", verifSamePrimary(want[r][c], got[r][c]))
+		}
+	}
+	verifObserve("rows", int64(len(want)))
+	verifReach("end")
+}
+
+// Three and four analytic functions with different orders in one SELECT: each re-sorts the rows, so
+// the order in which csvq evaluates them decides the order of the result.  Under every iteration
+// order of the maps involved (Go randomises it per run) the result is the same as in the default
+// order - with one worker, where no scheduling is involved at all.
+func VerifC12AnalyticOrder() {
+	src := []string{
+		"select id, rank() over (order by id), sum(id) over (order by id desc), first_value(id) over (order by k, id) from t",
+		"select id, row_number() over (order by k desc, id), count(*) over (partition by k), max(id) over (order by id desc), lag(id) over (order by id) from t",
+	}
+	qi := verifChoice("query", len(src))
+	const n = 3
+	var keys [n]int64
+	for i := range keys {
+		keys[i] = int64(verifChoice("k", 2))
+	}
+	q := verifParseSelect(src[qi])
+	run := func(explore bool) ([][]value.Primary, error) {
+		tx := verifNewTx()
+		tx.Flags.CPU = 1
+		scope := NewReferenceScope(tx)
+		rows := make([][]value.Primary, n)
+		for i := range rows {
+			rows[i] = []value.Primary{value.NewInteger(int64(i)), value.NewInteger(keys[i])}
+		}
+		verifTempTable(scope, "t", []string{"id", "k"}, rows)
+		verifMapOrder(explore)
+		view, err := Select(verifCtx(), scope, q)
+		verifMapOrder(false)
+		if err != nil {
+			return nil, err
+		}
+		return verifRowsOf(view), nil
+	}
+	want, err1 := run(false)
+	got, err2 := run(true)
+	verifAssert("both runs succeed", err1 == nil && err2 == nil)
+	verifAssert("same number of rows in every map order", len(want) == len(got))
+	for r := 0; r < len(want) && r < len(got); r++ {
+		for c := 0; c < len(want[r]) && c < len(got[r]); c++ {
+			verifAssert("same value at the same position in every map order", verifSamePrimary(want[r][c], got[r][c]))
 		}
 	}
 	verifObserve("rows", int64(len(want)))
